@@ -1,7 +1,10 @@
 package sched
 
 import (
+	"fmt"
+	"reflect"
 	"sync"
+	"sync/atomic"
 )
 
 type Config struct {
@@ -18,6 +21,8 @@ type Result struct {
 	Blocks    int
 	Trace     []uint8 // task chosen at every contended decision
 	Blocked   []int   // tasks still blocked at the end (deadlock)
+	Polling   int     // tasks still waiting for a channel operation at the end
+	Spawned   int     // goroutines the program started (tasks of the simulation)
 	Events    []Event
 	Panics    []any
 }
@@ -54,6 +59,7 @@ func Run(cfg Config, fns []func()) *Result {
 	case 1:
 		res.Outcome = "finished"
 		wg.Wait()
+		spawnWG.Wait()
 	case 2:
 		res.Outcome = "deadlock"
 	default:
@@ -68,11 +74,203 @@ func Run(cfg Config, fns []func()) *Result {
 	return res
 }
 
+var spawnWG sync.WaitGroup
+
+// Go starts fn as a new task of the running simulation (the rewritten form of a `go` statement in code
+// under simulation). Outside a run, or when the task table is full, it is a plain go statement.
+func Go(fn func()) {
+	slot := spawnSlot()
+	if slot < 0 {
+		go fn()
+		return
+	}
+	spawnWG.Add(1)
+	go func() {
+		taskStart(slot)
+		defer spawnWG.Done()
+		defer func() {
+			if r := recover(); r != nil {
+				Record("panic-in-goroutine", fmt.Sprint(r), "", 0)
+			}
+			taskDone(slot)
+		}()
+		fn()
+	}()
+	Yield("go")
+}
+
+// Channel operations of code under simulation. A task must never block in the Go runtime (it is the
+// only one running), so every operation is tried without blocking and the task polls (Poll) until it
+// succeeds. That is exact for closed channels, buffered channels, ctx.Done(), timers and for partners
+// that really block (goroutines of the standard library). Two polling tasks, however, would never
+// meet on an unbuffered (or full / empty) channel: for Send and Recv statements the scheduler
+// therefore keeps a registry of waiting senders and receivers per channel and hands the value over
+// directly; an atomic flag per hand-over gives the race detector the edge a real channel would give.
+// (A select in simulated code is polled with its real cases; a case that could only be served by such
+// a hand-over is not matched - a run that ends with tasks still polling is reported as "not simulated",
+// never as a deadlock of the program.)
+
+type handoff struct {
+	ready atomic.Uint32 // stored by the registering side after initialisation, loaded by the partner before it touches the record
+	flag  atomic.Uint32 // 1: value delivered (receiver side) / taken (sender side)
+	val   any
+	ok    bool
+}
+
+type waiter struct {
+	ch   uintptr
+	send bool
+	h    *handoff
+	used bool
+}
+
+var waiters [MaxTasks]waiter
+
+//go:norace
+func findWaiter(ch uintptr, send bool) int {
+	for i := 0; i < ntasks; i++ {
+		if waiters[i].used && waiters[i].ch == ch && waiters[i].send == send {
+			return i
+		}
+	}
+	return -1
+}
+
+//go:norace
+func setWaiter(self int, ch uintptr, send bool, h *handoff) {
+	waiters[self] = waiter{ch: ch, send: send, h: h, used: true}
+}
+
+//go:norace
+func clearWaiter(i int) { waiters[i] = waiter{} }
+
+//go:norace
+func waiterHandoff(i int) *handoff { return waiters[i].h }
+
+func chanKey[T any](ch <-chan T) uintptr { return reflect.ValueOf(ch).Pointer() }
+
+// Recv is `<-ch` for code under simulation.
+func Recv[T any](ch <-chan T) T {
+	v, _ := Recv2(ch)
+	return v
+}
+
+// Recv2 is `v, ok := <-ch`.
+func Recv2[T any](ch <-chan T) (T, bool) {
+	if !InTask() {
+		v, ok := <-ch
+		return v, ok
+	}
+	self := Self()
+	key := chanKey(ch)
+	var mine *handoff
+	for {
+		if mine != nil && mine.flag.Load() == 1 {
+			// a waiting sender handed its value over
+			clearWaiter(self)
+			v, _ := mine.val.(T)
+			Yield("recv")
+			return v, mine.ok
+		}
+		select {
+		case v, ok := <-ch:
+			if mine != nil {
+				clearWaiter(self)
+			}
+			Yield("recv")
+			return v, ok
+		default:
+		}
+		if i := findWaiter(key, true); i >= 0 {
+			// a sender of this simulation waits on the channel: take its value
+			h := waiterHandoff(i)
+			clearWaiter(i)
+			if mine != nil {
+				clearWaiter(self)
+			}
+			h.ready.Load()
+			v, _ := h.val.(T)
+			h.flag.Store(1)
+			Yield("recv")
+			return v, true
+		}
+		if mine == nil {
+			mine = &handoff{}
+			mine.ready.Store(1)
+			setWaiter(self, key, false, mine)
+		}
+		Poll("recv")
+	}
+}
+
+// Send is `ch <- v`.
+func Send[T any](ch chan<- T, v T) {
+	if !InTask() {
+		ch <- v
+		return
+	}
+	self := Self()
+	key := reflect.ValueOf(ch).Pointer()
+	var mine *handoff
+	for {
+		if mine != nil && mine.flag.Load() == 1 {
+			clearWaiter(self) // a receiver took the value
+			Yield("send")
+			return
+		}
+		select {
+		case ch <- v:
+			if mine != nil {
+				clearWaiter(self)
+			}
+			Yield("send")
+			return
+		default:
+		}
+		if i := findWaiter(key, false); i >= 0 {
+			h := waiterHandoff(i)
+			clearWaiter(i)
+			if mine != nil {
+				clearWaiter(self)
+			}
+			h.ready.Load()
+			h.val, h.ok = v, true
+			h.flag.Store(1)
+			Yield("send")
+			return
+		}
+		if mine == nil {
+			mine = &handoff{val: v}
+			mine.ready.Store(1)
+			setWaiter(self, key, true, mine)
+		}
+		Poll("send")
+	}
+}
+
+// Polling reports how many tasks were still waiting for a channel operation when the run ended.
+//
+//go:norace
+func Polling() int {
+	n := 0
+	for i := 0; i < ntasks; i++ {
+		if tasks[i].status == stPolling {
+			n++
+		}
+	}
+	return n
+}
+
 //go:norace
 func setup(cfg Config, n int) {
-	ntasks = n
+	ntasks, ninitial, spawned, pollSpins = n, n, 0, 0
+	waiters = [MaxTasks]waiter{}
 	tasks = new([MaxTasks]task)
 	rng = cfg.Seed
+	seed0 = cfg.Seed
+	for i := range owner {
+		owner[i] = int32(i)
+	}
 	policy = cfg.Policy % NPolicies
 	stepCap = cfg.StepCap
 	if stepCap <= 0 {
@@ -112,6 +310,7 @@ func waitMain() int {
 //go:norace
 func collect(r *Result) {
 	r.Steps, r.Contended, r.Blocks = steps, contended, blocks
+	r.Polling, r.Spawned = Polling(), spawned
 	r.Trace = make([]uint8, ntrace)
 	copy(r.Trace, trace[:ntrace])
 	r.Events = make([]Event, nevents)
